@@ -128,7 +128,8 @@ Definition maxUnpackSize : Z := 256.
 Definition unpack_im (i : option Z) (j : option Z) : prog (list value) :=
   let i := match i with Some i => i | None => 1 end in
   let k := fun j : Z =>
-    if (i <? maxint - maxUnpackSize) && (wrap (i + maxUnpackSize) <=? j) then Fail TETooMany
+    (* i <= j && uint64(j)-uint64(i) >= maxUnpackSize : j - i + 1 values, counted without overflow *)
+    if (i <=? j) && (maxUnpackSize <=? (j - i) mod 2^64) then Fail TETooMany
     else unpack_loop (Z.to_nat (j - i + 1)) i in
   match j with Some j => k j | None => PLen T1 k end.
 
